@@ -521,3 +521,38 @@ PROPS['C05'] = dict(
     level_text='Unbounded theorems over the ledger model, for every message and state: a transaction not signed by a key the message\'s rules authorize changes nothing; if it takes effect, its signer was authorized and no account other than the signer\'s is debited; a validator record changes only at the hands of its operator or output address; an order only at the hands of its seller; escrow leaves a pool only to the seller on the seller\'s request. The rules are compared with the real CheckTx / ApplyTransactions on rightful, re-signed, forged and tampered transactions of several key types on every check. Partial: multisig, RLP wrappers, certificate-result and DEX messages are outside the model.',
     level_note='Partial: key-type specifics (multisig thresholds, RLP re-derivation) are exercised only through the real library verdict, not modelled.',
 )
+
+# ---- additions made after the second and third seeding rounds (what the harnesses exercise beyond the text above)
+_EXTRA = {
+ 'C02': ' Also: the certified block bytes followed by a second occurrence of the header field (protobuf merge) and an extra transaction.',
+ 'C03': ' Also: one chain runs through the checkpoint height 100; one chain has a block size of a few transactions (the proposer executes '
+        'more than fits); the governance vote window closes between caching and proposing; every node stores its own valid commit certificate '
+        '(signer sets differ); transfers under ed25519 / secp256k1 keys, forged ones offered to the mempool twice, replicas start with a cold '
+        'signature cache; tampered proposals (a transaction dropped, the time changed, a signature corrupted) are validated twice and must be '
+        'judged the same; a follower node takes every block in sync mode from the archive at its tip.',
+ 'C05': ' Also: BLS multi-signature accounts (threshold met, below, presented again, threshold lowered inside the key, bitmap naming a '
+        'non-signer); Ethereum-wrapped calls (payload names the victim; wrapper declares the victim\'s key); blocks mixing all four key types '
+        'presented twice (a refusal must not become an acceptance).',
+ 'C06': ' Also: unknown fields inside the signature / payload sub-messages, the nonce re-stamped by a third party (independent sign bytes '
+        'computed by the harness), nonce-based transactions (see rlp mode).',
+ 'C07': ' Also: the content of the per-block slash tracker before / after failed transactions; certificate-result transactions with real '
+        'committee signatures (certsim): single, and blocks [ok, failing-after-it-slashed, ok] on twin nodes against the block without the failing ones.',
+ 'C08': ' Also: store histories with rollbacks to earlier heights followed by further commits.',
+ 'C10': ' Also: key families with nested keys on the write-set stack; the witness of the known finding; block histories: committed blocks '
+        'with transactions read back as headers and as full blocks in random order, with and without a purged block cache.',
+ 'C11': ' (see C03: certificate variants per node, follower in sync mode, vote-window flip, long chain).',
+ 'C12': ' Also: slashes in the block in which the validator\'s unstaking finishes followed by the end-block sweep; slash bursts on one '
+        'validator across committees A, B, A with the harness\'s own budget account.',
+ 'C14': ' Also: per-committee cap across interleaved committees (A, B, A / A, B, B, A, A) through the real HandleDoubleSigners under protocol version 2.',
+ 'C15': ' The healed period takes every wait from the implementation\'s own BFT.WaitTime; in half of the runs the Byzantine validator '
+        'sends Pacemaker messages for far higher rounds whenever a correct replica gives up a round.',
+ 'C16': ' Also: re-framed proofs (key / value boundary of every proof node moved to every position), proofs at the head while the next block '
+        'is pending (speculative root computed or not), historical proofs after a memtable flush, values of another size.',
+ 'C17': ' Also: a proof relayed from a REAL session with the impersonated node; sealed handshake frames injected into the data stream.',
+ 'C18': ' Also: assembler cases on the streams the node itself builds (NewStreams); the inbox of a topic overflowing and the next message after it.',
+ 'C19': ' Also: sign-bytes cases (random transactions with every field non-default, model vs implementation; copies differing in exactly one '
+        'signed field must have other sign bytes); Ethereum call data of every selector x contract x length 0..100 through the wrapper translation.',
+ 'C20': ' Also: lock / reset / close instructions of certificate results (duplicates, unknown ids, a buyer near 2^64) through real transactions (certsim).',
+}
+for _k, _v in _EXTRA.items():
+    PROPS[_k]['rule'] = PROPS[_k]['rule'] + _v
